@@ -36,9 +36,15 @@ func main() {
 		}
 		doWsLoop(ms)
 	}
-	randomCases(r, *n, bigCases(gen.New(*seed+77), *big))
+	bigs := bigCases(gen.New(*seed+77), *big)
 	if *e2e > 0 {
-		runE2E(r, *e2e, *big)
+		e2eSetup()
+		bigs = append(bigs, e2eBig(gen.New(*seed+78), *big)...)
+	}
+	randomCases(r, *n, bigs)
+	if *e2e > 0 {
+		runE2E(r, *e2e)
+		e2eReport()
 	}
 	ks := make([]string, 0, len(stats))
 	for k := range stats {
